@@ -320,14 +320,22 @@ theorem scaleCoord_centre {x : F64} (h : ℤ) (D p : ℕ) (hp : p ≤ 5) (hh : |
   · exfalso
     rw [hm1] at hoff1
     push_cast at hoff1
-    have hC : (2:ℚ) ^ (-(1075:ℤ)) < (2:ℚ) ^ (-(20:ℤ)) := Dy.two_zpow_lt_iff.mpr (by norm_num)
-    have e20 : (2:ℚ) ^ (-(20:ℤ)) = 1 / 1048576 := by rw [zpow_neg]; norm_num
-    rw [e20] at hC
-    have : (1:ℚ) / 200000 ≤ -(v / 100000) := by
-      rw [neg_div', le_div_iff₀ (by norm_num)]; linarith
-    linarith
+    rcases hU with hU | ⟨h37, _⟩
+    · have hC : (2:ℚ) ^ (-(1075:ℤ)) < (2:ℚ) ^ (-(20:ℤ)) := Dy.two_zpow_lt_iff.mpr (by norm_num)
+      have e20 : (2:ℚ) ^ (-(20:ℤ)) = 1 / 1048576 := by rw [zpow_neg]; norm_num
+      rw [e20] at hC
+      have : (1:ℚ) / 200000 ≤ -(v / 100000) := by
+        rw [neg_div', le_div_iff₀ (by norm_num)]; linarith
+      linarith
+    · have h37' : (2:ℚ) ^ (-(37:ℤ)) < 1 / 2 := by
+        have : (2:ℚ) ^ (-(37:ℤ)) < (2:ℚ) ^ (-(1:ℤ)) := Dy.two_zpow_lt_iff.mpr (by norm_num)
+        have e1 : (2:ℚ) ^ (-(1:ℤ)) = 1 / 2 := by rw [zpow_neg]; norm_num
+        rw [e1] at this; exact this
+      have hvle : v ≤ -(1 / 2) := by linarith
+      generalize (2:ℚ) ^ (-(37:ℤ)) = A at h37 h37'
+      linarith
   · have ht : t' = ((D:ℚ) + 1 / 2) * (10:ℚ) ^ k := by
-      rcases hrel with e | ⟨hm1, _, hr, _⟩
+      rcases hrel with ⟨e, _⟩ | ⟨hm1, _, hr, _⟩
       · rw [e, hoff]
       · have hz : v + 100000 = (((2 * D + 1) * 10 ^ k : ℤ) : ℚ) * (2:ℚ) ^ (-1:ℤ) := by
           have := hoff
